@@ -34,6 +34,12 @@ def canonical(rng):
         if norm in [n2 for _, n2 in names]:
             continue
         names.append((nm, norm))
+        if b"/" in norm and rng.random() < 0.35:
+            # a second file whose name is a trailing part of this one's (DIST_SUBDIR/name and name): two different files,
+            # next to each other in either order
+            tail = norm.split(b"/", rng.randint(1, norm.count(b"/")))[-1]
+            if tail not in [n2 for _, n2 in names] and tail not in (b".", b".."):
+                names.insert(len(names) - rng.choice([0, 1]), (tail, tail))
     dist = [n for n, _ in names if classify(n) == "D"]
     patch = [n for n, _ in names if classify(n) == "P"]
     out = rcs + b"\n\n"
